@@ -72,10 +72,15 @@ def run_jobs(jobs, maxproc=None, log=None):
     def run_one(job):
         t0 = time.time()
         procs = {}
+        # cbmc writes the CNF for an external SAT solver to $TMPDIR and leaves it behind when the job is killed at its
+        # time limit (41 GB had piled up in /tmp): keep those files inside this run's scratch directory, which is removed at exit
+        tmpd = os.path.join(scratch(), "cbmc-tmp")
+        os.makedirs(tmpd, exist_ok=True)
+        env = dict(os.environ, TMPDIR=tmpd)
         for be in job.backends:
             procs[be] = subprocess.Popen(["/usr/bin/time", "-f", "RSSKB %M"] + job.cmd(be), stdout=subprocess.PIPE,
                                          stderr=subprocess.PIPE, universal_newlines=True, errors="replace",
-                                         preexec_fn=os.setsid)
+                                         preexec_fn=os.setsid, env=env)
         outs = {}
         lock = threading.Lock()
 
